@@ -16,7 +16,7 @@ META = {
     "engine": "GoSem",
     "technique": "TLA+ reference of Go semantics (IntALU over BigInt, InitOrder, StrConv over Utf8, MiniGo interpreter) + implementation-shaped models of the VM's per-kind truncation switches and of the checker's declaration sort, model-checked exhaustively by TLC; TLC exports the case space (and, for MiniGo, runs every seeded program to completion to obtain its output); a Go driver writes each case as Go source, builds and runs it with the real scriggo.Build/Run; a TLC Trace spec judges every observation against the reference; gc is consulted only for failing cases (oracle guard)",
     "level": "model_checking",
-    "level_text": "TLC model-checks Impl(op,kind,x,y) against Ref for all 11 integer kinds x 17 binary + 2 unary operators + conversions x boundary operands x shift counts of every count kind (register and constant-operand forms); the declaration-sort algorithm of the checker against the Go spec's initialisation algorithm for all dependency graphs over 3 variables + 1 function (4 + 1 / sampled 4 + 2 thorough); the same cases are run through the real Build/Run in up to three source forms each and every printed value / panic message / build outcome is judged by the TLA+ reference. MiniGo programs (labelled loops, switch/fallthrough, goto, closures, arrays/structs/slices/maps, strings, run-time faults) are interpreted by TLC and their output compared with the real run.",
+    "level_text": "TLC model-checks Impl(op,kind,x,y) against Ref for all 11 integer kinds x 17 binary + 2 unary operators + conversions x boundary operands x shift counts of every count kind (register and constant-operand forms); the declaration-sort algorithm of the checker against the Go spec's initialisation algorithm for all dependency graphs over 3 variables + 1 function with at most 3 edges (thorough: all 65 536 graphs over 3 + 1, and all graphs over 4 variables + 2 functions with at most 3 edges); the same cases are run through the real Build/Run in up to three source forms each and every printed value / panic message / build outcome is judged by the TLA+ reference. MiniGo programs (labelled loops, switch/fallthrough, goto, closures, arrays/structs/slices/maps, strings, run-time faults) are interpreted by TLC and their output compared with the real run.",
     "level_note": "Trusted: TLC, lib/BigInt.tla and lib/Utf8.tla, the concretiser (record -> Go source by string templates) and the print capture of the driver. gc is not on the passing path. Not covered: floating point and complex numbers, print formatting of floats, the // run corpus, goroutines (C14), defer/panic/recover bookkeeping (C12 PanicFlow), methods on Scriggo-defined types and generics (outside Scriggo's subset), register-allocation pressure beyond the generated programs.",
     "design_ref": "7/C01",
 }
@@ -85,7 +85,7 @@ def mc_violations(out):
 
 
 def part_initorder(ctx):
-    runs = ctx.pick([(3, 1, 4)], [(3, 1, 16), (4, 2, 4)])
+    runs = ctx.pick([(3, 1, 3)], [(3, 1, 16), (4, 2, 3)])
     cases, info = [], {"states": 0, "transitions": 0, "mc_wall_s": 0, "bounds": [], "mc_invariants": ["ImplMeetsRef", "RefTotal"]}
     viol = {}
     for k, (nv, nf, me) in enumerate(runs):
@@ -461,7 +461,7 @@ def mg_tla(v):
 
 
 def part_minigo(ctx):
-    nprog = ctx.pick(2, 20) * len(MG_VARIANTS)
+    nprog = ctx.pick(2, 10) * len(MG_VARIANTS)
     progs = mg_programs(random.Random(ctx.seed * 7919 + 11), nprog)
     batch = 62
     parts = [progs[b:b + batch] for b in range(0, len(progs), batch)]
@@ -587,11 +587,12 @@ def corrupt(o):
     return None
 
 
-def judge(ctx, step, recs, shards=1):
+def judge(ctx, step, recs, shards=1, per=2000):
     """Judge records with Trace_GoSem in `shards` parallel TLC runs; returns bad records (with 'obs')."""
     if not recs:
         return []
-    n = max(1, min(shards, (len(recs) + 1999) // 2000))
+    n = max(1, min(shards, (len(recs) + per - 1) // per))
+    recs = sorted(recs, key=lambda o: (o["id"] * 7919) % 1000003)     # spread the families evenly over the shards
     size = (len(recs) + n - 1) // n
     parts = [recs[i:i + size] for i in range(0, len(recs), size)]
 
@@ -617,7 +618,7 @@ def gc_raw(ctx, src, n):
     (d / "go.mod").write_text("module c01guard\n\ngo 1.25.0\n")
     try:
         p = subprocess.run(["go", "run", "main.go"], cwd=d, env=rig.goenv(), stdout=subprocess.PIPE, stderr=subprocess.STDOUT,
-                           text=True, timeout=300)
+                           text=True, errors="replace", timeout=300)
     except subprocess.TimeoutExpired:
         return None
     return normalise_gc(p.stdout, p.returncode)
@@ -684,8 +685,23 @@ def run(ctx, replay_cases=None):
     )
     ctx.cov["panic_message_detail_differs"] = sum(1 for o in by_fam.get("minigo", []) if o["outcome"] == "panic" and o["exp"]["outcome"] == "panic" and o["msg"] != o["exp"]["msg"])
     # judge
-    bads = judge(ctx, "trace", allobs, shards=ctx.pick(6, 12))
+    bads = judge(ctx, "trace", allobs, shards=ctx.pick(8, 14))
     ctx.cov["judged_bad_first_pass"] = len(bads)
+    # sensitivity self-test: corrupted observations must be rejected by the same Trace spec (judged in the
+    # same TLC runs as the reproduction guard below; their ids are shifted by ST)
+    ST = 50000000
+    st = []
+    for fam in sorted(by_fam):
+        badkeys = {(b["id"], b["obs"].get("form", "")) for b in bads}
+        good = [o for o in by_fam[fam] if nontrivial(o) and (o["id"], o.get("form", "")) not in badkeys] or by_fam[fam]
+        for o in rig.pick_samples(good, 3, ctx.seed + 7):
+            c = corrupt(o)
+            if c is not None:
+                c["id"] += ST
+                st.append(c)
+    b3 = []
+    if not bads and st:
+        b3 = judge(ctx, "trace_selftest", st, shards=1)
     # reproduction guard: each failing case alone in a fresh process, source kept
     confirmed = []
     if bads:
@@ -694,11 +710,11 @@ def run(ctx, replay_cases=None):
             if b["id"] not in seen:
                 seen.add(b["id"])
                 cc.append(case_from_obs(b["obs"]))
-        # at most 8 cases per signature are re-run (hundreds of cases share one root cause)
+        # at most 3 cases per signature are re-run (hundreds of cases share one root cause)
         per_sig, keep_ids = {}, set()
         for b in bads:
             k = json.dumps(b["sig"], sort_keys=True)
-            if per_sig.setdefault(k, 0) < 8:
+            if per_sig.setdefault(k, 0) < 3:
                 per_sig[k] += 1
                 keep_ids.add(b["id"])
         cc = [c for c in cc if c["id"] in keep_ids]
@@ -706,7 +722,9 @@ def run(ctx, replay_cases=None):
         ctx.drive("c01", ctx.work / "confirm_cases.ndjson", ctx.work / "confirm_obs.ndjson", args=["-chunk", "1", "-keepsrc"], timeout=1500)
         cobs = rig.read_ndjson(ctx.work / "confirm_obs.ndjson")
         slim = [{k: v for k, v in o.items() if k not in ("src", "raw")} for o in cobs]
-        b2 = judge(ctx, "trace_confirm", slim, shards=2)
+        b23 = judge(ctx, "trace_confirm", slim + st, shards=8, per=350)     # <= 400 records per run: every bad record is listed
+        b2 = [b for b in b23 if b["id"] < ST]
+        b3 = [b for b in b23 if b["id"] >= ST]
         src_of = {(o["id"], o.get("form", "")): o for o in cobs}
         keys2 = {json.dumps(b["sig"], sort_keys=True) for b in b2}
         confirmed = [b for b in bads if json.dumps(b["sig"], sort_keys=True) in keys2]
@@ -736,17 +754,7 @@ def run(ctx, replay_cases=None):
             ctx.cov["oracle_disputed"] = sorted(disputed)
             confirmed = [b for b in confirmed if json.dumps(b["sig"], sort_keys=True) not in disputed]
         ctx.cov["oracle_guard_runs"] = n
-    # sensitivity self-test: corrupted observations must be rejected by the same Trace spec
-    st = []
-    for fam in sorted(by_fam):
-        badkeys = {(b["id"], b["obs"].get("form", "")) for b in bads}
-        good = [o for o in by_fam[fam] if nontrivial(o) and (o["id"], o.get("form", "")) not in badkeys] or by_fam[fam]
-        for o in rig.pick_samples(good, 3, ctx.seed + 7):
-            c = corrupt(o)
-            if c is not None:
-                st.append(c)
     if st:
-        b3 = judge(ctx, "trace_selftest", st, shards=1)
         ctx.cov["sensitivity_selftest"] = {"corrupted": len(st), "rejected": len(b3)}
         if len(b3) < len(st):
             raise Infra(f"sensitivity self-test failed: {len(st)} corrupted observations, only {len(b3)} rejected")
